@@ -136,6 +136,9 @@ pub struct World {
     pub uncertain: bool,
     /// tells whether a queued command, at the moment EXEC runs it, falls under an active
     /// known-finding exclusion (its slot is then not judged and the model becomes uncertain)
+    /// after a lenient script step the dataset is no longer compared (the scripting path is a
+    /// second implementation); checks that restrict scripts to a safe subset turn this off
+    pub script_uncertain: bool,
     pub slot_excluder: Option<std::sync::Arc<dyn Fn(&mut World, usize, &Cmd) -> bool + Send + Sync>>,
 }
 
@@ -368,6 +371,7 @@ impl World {
             lenient_scripts: false,
             uncertain: false,
             slot_excluder: None,
+            script_uncertain: true,
         }
     }
 
@@ -665,6 +669,27 @@ impl World {
                     }
                 }
             }
+            "SCRIPT" if args.len() == 3 && upper(&args[1]) == "LOAD" => {
+                let sha = crate::sha1::sha1_hex(&args[2]);
+                chk_bulk(reply, sha.as_bytes())?;
+                self.scripts.insert(sha, args[2].clone());
+                Ok(())
+            }
+            "EVALSHA" if args.len() >= 3 && args[2] == b"0" => {
+                let sha = String::from_utf8_lossy(&args[1]).to_lowercase();
+                match self.scripts.get(&sha).cloned() {
+                    None => {
+                        self.label("noscript");
+                        chk_err(reply)
+                    }
+                    Some(src) => {
+                        self.label("via-evalsha");
+                        let mut a: Vec<Bytes> = vec![b"EVAL".to_vec(), src, b"0".to_vec()];
+                        a.extend_from_slice(&args[3..]);
+                        self.exec_data(conn, &a, reply)
+                    }
+                }
+            }
             "EVAL" if args.len() >= 4 && args[1] == WRAP_SCRIPT && args[2] == b"0" => {
                 // a command issued through the scripting path: same effect as the direct command
                 self.label("via-script");
@@ -673,7 +698,9 @@ impl World {
                     let _ = with_lenient(true, || self.exec_data(conn, &inner, reply));
                     // the scripting path is a second implementation of the command (judged by
                     // C12): after it the dataset is no longer compared with the model
-                    self.uncertain = true;
+                    if self.script_uncertain {
+                        self.uncertain = true;
+                    }
                     match reply {
                         Reply::Frame(_) => Ok(()),
                         _ => chk_err(reply),
